@@ -17,7 +17,11 @@ WATCH = (os.path.join(runner.REPO, 'clastic') + os.sep, '<sinter')
 
 
 def make_route(e, shared=None):
-    return Route(e['pattern'], R.make_endpoint(e['tag'], e['out'], shared), methods=e['methods'])
+    ms = e['methods']
+    if ms is not None:
+        # any collection a caller may hand over (an empty one means "no restriction", like None)
+        ms = {'list': list, 'tuple': tuple, 'set': set, 'frozenset': frozenset, 'iter': iter, 'dictkeys': lambda m: dict.fromkeys(m).keys()}[e.get('mform', 'list')](ms)
+    return Route(e['pattern'], R.make_endpoint(e['tag'], e['out'], shared), methods=ms)
 
 
 class C06(Check):
@@ -49,6 +53,7 @@ class C06(Check):
     def gen_entry(self, rng, mode, k):
         pats = R.STRICT_OK if mode == 'strict' else sorted(R.CAT)
         return {'pattern': rng.choice(pats), 'methods': rng.choice(R.METHOD_SETS),
+                'mform': rng.choice(['list', 'list', 'tuple', 'set', 'frozenset', 'dictkeys']),
                 'out': rng.choice(R.OUTCOMES + ['nbS403', 'nbS403', 'nbS404']), 'tag': 'r%d' % k}
 
     def generate(self, seed, tier):
